@@ -307,3 +307,22 @@ Proof.
   - intros. apply tree_tob_sound; assumption.
   - intros. apply tree_fromb_sound; assumption.
 Qed.
+
+(* ---- loop-free + warm = tree_to *)
+Definition warm_to (ns : list wnode) (d : N) (lv : N -> nat) (up : nat -> nat) (par : N -> nat * nat) : Prop :=
+  forall who w lu mu, nth_error ns who = Some w -> router_shape w ->
+    nth_error (w_ports w) (up who) = Some (lu, mu) -> lv lu <> 0%nat ->
+    exists pm, port_mac ns (par lu) = Some pm /\ find_path (w_node w) d = Some (up who, pm).
+
+Theorem loop_free_warm_tree_to : forall lns ns d lv up par,
+  tree_from lns ns d lv up par -> warm_to ns d lv up par -> tree_to lns ns d lv up par.
+Proof.
+  intros lns ns d lv up par Htf Hw. constructor.
+  - apply (tf_root _ _ _ _ _ _ Htf).
+  - intros who w Hwn Hr. destruct (tf_router _ _ _ _ _ _ Htf _ _ Hwn Hr) as (lu & mu & Hup & Hchild).
+    exists lu, mu. split; [assumption|]. split; [|split; [assumption|]].
+    + intro E. apply (tf_zero _ _ _ _ _ _ Htf lu); [|assumption].
+      exists (who, up who), mu. unfold port_of. cbn [fst snd]. rewrite Hwn. exact Hup.
+    + intro Hne. apply (Hw who w lu mu); assumption.
+  - apply (tf_parent _ _ _ _ _ _ Htf).
+Qed.
